@@ -31,3 +31,8 @@ func WouldBlock(f func()) bool          { sym(); return false }
 func Go(f func())                       { sym() }
 func IsNaN(f float64) bool              { sym(); return false }
 func IsInf(f float64) bool              { sym(); return false }
+func All(c ...bool) bool                { sym(); return false }
+func Any(c ...bool) bool                { sym(); return false }
+func Implies(a, b bool) bool            { sym(); return false }
+func IteF(c bool, a, b float64) float64 { sym(); return 0 }
+func IteI(c bool, a, b int64) int64     { sym(); return 0 }
